@@ -14,6 +14,7 @@ NA_REASONS = json.load(open(os.path.join(HERE, "not_applicable.json"))) if os.pa
 READY = [l.strip() for l in open(os.path.join(HERE, "registered.txt")) if l.strip() and not l.startswith("#")]
 
 checks, na = [], []
+EXTRA = []  # further Props modules (EXTRA_PROPS of a harness module), built by setup_cmd as well
 for pid in ALL:
     if pid not in READY:
         na.append({"property_id": pid, "reason": NA_REASONS.get(pid, "check under construction in this round (design in DESIGN.md §6); nothing is claimed for it yet")})
@@ -36,6 +37,8 @@ for pid in ALL:
     for n in node.body:
         if isinstance(n, ast.Assign) and getattr(n.targets[0], "id", "") == "MANIFEST_ENTRY":
             meta = ast.literal_eval(n.value)
+        if isinstance(n, ast.Assign) and getattr(n.targets[0], "id", "") == "EXTRA_PROPS":
+            EXTRA.extend(ast.literal_eval(n.value))
     checks.append({
         "property_id": pid,
         "quick_cmd": f"./check {pid} --tier quick",
@@ -50,7 +53,7 @@ for pid in ALL:
 
 manifest = {
     "version": 1,
-    "setup_cmd": "cd lean && lake build " + " ".join(f"QuantemModel.Props.{c['property_id']} QuantemModel.Driver.{c['property_id']}" for c in checks),
+    "setup_cmd": "cd lean && lake build " + " ".join(f"QuantemModel.Props.{c['property_id']} QuantemModel.Driver.{c['property_id']}" for c in checks) + "".join(" " + m for m in EXTRA),
     "hooks": {
         "guard": "QUANTEM_VERIF",
         "enable": "no source hooks are needed: faults and observations are injected from the harness process (monkeypatching at run time); the guard name is reserved",
